@@ -373,7 +373,7 @@ Section RankInv.
     destruct (lt y x); cbn; [rewrite IH|]; reflexivity.
   Qed.
   Lemma isort_map : forall l, isort lt' (map f l) = map f (isort lt l).
-  Proof. induction l as [|x l IH]; [reflexivity|]. cbn. rewrite IH. apply insert_map. Qed.
+  Proof. unfold isort. induction l as [|x l IH]; [reflexivity|]. cbn [map fold_right]. rewrite IH. apply insert_map. Qed.
 
   Theorem cvm_monotone : forall X Y, cvm_u4 lt' (map f X) (map f Y) = cvm_u4 lt X Y.
   Proof.
@@ -381,3 +381,382 @@ Section RankInv.
     f_equal; f_equal; f_equal; apply map_ext; intros; apply mr2_map.
   Qed.
 End RankInv.
+
+(** ---- Cramer-von Mises: needs the sort to be canonical, i.e. a total order ---- *)
+From Coq Require Import Sorted.
+
+Section SortR.
+  Context {T : Type} (lt : T -> T -> bool).
+  Hypothesis lt_irrefl : forall a, lt a a = false.
+  Hypothesis lt_trans : forall a b c, lt a b = true -> lt b c = true -> lt a c = true.
+  Hypothesis lt_total : forall a b, lt a b = false -> lt b a = false -> a = b.
+
+  Let le (a b : T) : Prop := lt b a = false.
+
+  Lemma lt_asym' : forall a b, lt a b = true -> lt b a = false.
+  Proof.
+    intros a b H. destruct (lt b a) eqn:E; [|reflexivity].
+    pose proof (lt_trans _ _ _ H E) as C. rewrite lt_irrefl in C. discriminate.
+  Qed.
+
+  Lemma le_trans : forall a b c, le a b -> le b c -> le a c.
+  Proof.
+    unfold le. intros a b c Hab Hbc. destruct (lt c a) eqn:E; [|reflexivity].
+    destruct (lt a b) eqn:E2.
+    - pose proof (lt_trans _ _ _ E E2) as C. congruence.
+    - pose proof (lt_total _ _ E2 Hab). subst. congruence.
+  Qed.
+
+  Lemma insert_perm : forall x l, Permutation (insert lt x l) (x :: l).
+  Proof.
+    intros x l. induction l as [|y r IH]; [apply Permutation_refl|]. cbn.
+    destruct (lt y x); [|apply Permutation_refl].
+    eapply perm_trans; [apply perm_skip, IH|apply perm_swap].
+  Qed.
+
+  Lemma isort_perm : forall l, Permutation (isort lt l) l.
+  Proof.
+    unfold isort. induction l as [|x l IH]; [apply Permutation_refl|]. cbn [fold_right].
+    eapply perm_trans; [apply insert_perm|apply perm_skip, IH].
+  Qed.
+
+  Lemma insert_sorted : forall x l, Sorted le l -> Sorted le (insert lt x l).
+  Proof.
+    intros x l Hs. induction l as [|y r IH]; [repeat constructor|]. cbn.
+    destruct (lt y x) eqn:E.
+    - inversion Hs as [|? ? Hr Hh]; subst. constructor; [apply IH; exact Hr|].
+      destruct r as [|z r']; cbn.
+      + constructor. unfold le. apply lt_asym'; exact E.
+      + destruct (lt z x); constructor.
+        * inversion Hh; assumption.
+        * unfold le. apply lt_asym'; exact E.
+    - constructor; [exact Hs|]. constructor. exact E.
+  Qed.
+
+  Lemma isort_sorted : forall l, Sorted le (isort lt l).
+  Proof. unfold isort. induction l as [|x l IH]; [constructor|]. cbn [fold_right]. apply insert_sorted, IH. Qed.
+
+  Lemma sorted_perm_eq : forall l l', StronglySorted le l -> StronglySorted le l' -> Permutation l l' -> l = l'.
+  Proof.
+    induction l as [|a r IH]; intros l' Hs Hs' Hp.
+    - apply Permutation_nil in Hp. subst; reflexivity.
+    - destruct l' as [|a' r']; [apply Permutation_sym, Permutation_nil in Hp; discriminate|].
+      inversion Hs as [|? ? Hr Hf]; subst. inversion Hs' as [|? ? Hr' Hf']; subst.
+      assert (a = a').
+      { assert (Ha : In a (a' :: r')) by (eapply Permutation_in; [exact Hp|left; reflexivity]).
+        assert (Ha' : In a' (a :: r)) by (eapply Permutation_in; [apply Permutation_sym, Hp|left; reflexivity]).
+        destruct Ha as [Ha|Ha]; [symmetry; exact Ha|]. destruct Ha' as [Ha'|Ha']; [exact Ha'|].
+        rewrite Forall_forall in Hf, Hf'. pose proof (Hf _ Ha') as L1. pose proof (Hf' _ Ha) as L2.
+        unfold le in L1, L2. apply lt_total; assumption. }
+      subst a'. f_equal. apply IH; try assumption. eapply Permutation_cons_inv; exact Hp.
+  Qed.
+
+  Theorem isort_canonical : forall l l', Permutation l l' -> isort lt l = isort lt l'.
+  Proof.
+    intros l l' Hp. apply sorted_perm_eq.
+    - apply Sorted_StronglySorted; [exact le_trans | apply isort_sorted].
+    - apply Sorted_StronglySorted; [exact le_trans | apply isort_sorted].
+    - eapply perm_trans; [apply isort_perm|]. eapply perm_trans; [exact Hp|]. apply Permutation_sym, isort_perm.
+  Qed.
+
+  Theorem cvm_perm : forall X X' Y Y', Permutation X X' -> Permutation Y Y' ->
+    cvm_u4 lt X Y = cvm_u4 lt X' Y'.
+  Proof.
+    intros X X' Y Y' HX HY. unfold cvm_u4.
+    rewrite (zlen_perm _ _ HX), (zlen_perm _ _ HY), (isort_canonical _ _ HX), (isort_canonical _ _ HY).
+    assert (Hm : forall z, mr2 lt z (X ++ Y) = mr2 lt z (X' ++ Y')) by (intros; apply mr2_perm, Permutation_app; assumption).
+    f_equal; f_equal; f_equal; apply map_ext; intros; apply Hm.
+  Qed.
+End SortR.
+
+Theorem cvm_swap : forall {T} (lt : T -> T -> bool) X Y, cvm_u4 lt X Y = cvm_u4 lt Y X.
+Proof.
+  intros T lt X Y. unfold cvm_u4.
+  rewrite (map_ext (fun x => mr2 lt x (X ++ Y)) (fun x => mr2 lt x (Y ++ X))) by (intros; apply mr2_app_comm).
+  rewrite (map_ext (fun x => mr2 lt x (X ++ Y)) (fun x => mr2 lt x (Y ++ X))) by (intros; apply mr2_app_comm).
+  lia.
+Qed.
+
+(** the reported statistic T is a function of u, n, m only *)
+Lemma cvm_T_of_u4 : forall {T T'} (lt : T -> T -> bool) (lt' : T' -> T' -> bool) X Y X' Y',
+  zlen X = zlen X' -> zlen Y = zlen Y' -> cvm_u4 lt X Y = cvm_u4 lt' X' Y' -> cvm_T_frac lt X Y = cvm_T_frac lt' X' Y'.
+Proof. intros. unfold cvm_T_frac. rewrite H, H0, H1. reflexivity. Qed.
+
+Theorem cvm_T_swap : forall {T} (lt : T -> T -> bool) X Y, cvm_T_frac lt X Y = cvm_T_frac lt Y X.
+Proof.
+  intros. unfold cvm_T_frac. rewrite (cvm_swap lt X Y).
+  rewrite (Z.mul_comm (zlen X) (zlen Y)), (Z.add_comm (zlen X) (zlen Y)). reflexivity.
+Qed.
+
+(** ---- the order of R ---- *)
+Lemma Rltb_irrefl : forall a, Rltb a a = false.
+Proof. intros. apply Rltb_false. lra. Qed.
+Lemma Rltb_trans : forall a b c, Rltb a b = true -> Rltb b c = true -> Rltb a c = true.
+Proof. intros a b c H1 H2. apply Rltb_true in H1, H2. apply Rltb_true. lra. Qed.
+Lemma Rltb_total : forall a b, Rltb a b = false -> Rltb b a = false -> a = b.
+Proof. intros a b H1 H2. apply Rltb_false in H1, H2. lra. Qed.
+Lemma Rltb_asym : forall a b, Rltb a b = true -> Rltb b a = false.
+Proof. intros a b H. apply Rltb_true in H. apply Rltb_false. lra. Qed.
+
+Definition strictly_increasing (f : R -> R) : Prop := forall a b, (a < b)%R -> (f a < f b)%R.
+
+Lemma increasing_reflects : forall f, strictly_increasing f -> forall a b, Rltb (f a) (f b) = Rltb a b.
+Proof.
+  intros f Hf a b. destruct (Rltb a b) eqn:E.
+  - apply Rltb_true in E. apply Rltb_true. apply Hf; exact E.
+  - apply Rltb_false in E. apply Rltb_false. destruct E as [E|E]; [left; apply Hf; exact E|right; subst; reflexivity].
+Qed.
+
+(* ====================================================================== *)
+(** * Welch t over R *)
+Local Open Scope R_scope.
+
+Fixpoint Rsuml (l : list R) : R := match l with [] => 0 | x :: r => x + Rsuml r end.
+
+Lemma fold_left_Rplus : forall l a, fold_left Rplus l a = a + Rsuml l.
+Proof. induction l as [|x l IH]; intros a; cbn; [lra|]. rewrite IH. lra. Qed.
+
+Lemma sumA_R : forall l : list R, sumA (A:=RealA) l = Rsuml l.
+Proof. intros. unfold sumA. cbn. rewrite fold_left_Rplus. unfold zero; cbn. lra. Qed.
+
+Lemma Rsuml_perm : forall a b, Permutation a b -> Rsuml a = Rsuml b.
+Proof. induction 1; cbn; lra. Qed.
+
+Lemma sumA_perm : forall a b : list R, Permutation a b -> sumA (A:=RealA) a = sumA (A:=RealA) b.
+Proof. intros. rewrite !sumA_R. apply Rsuml_perm; assumption. Qed.
+
+Lemma lenA_perm : forall a b : list R, Permutation a b -> lenA (A:=RealA) a = lenA (A:=RealA) b.
+Proof. intros. unfold lenA. rewrite (zlen_perm (X:=num RealA) _ _ H). reflexivity. Qed.
+
+Lemma meanA_perm : forall a b : list R, Permutation a b -> meanA (A:=RealA) a = meanA (A:=RealA) b.
+Proof. intros. unfold meanA. rewrite (sumA_perm _ _ H), (lenA_perm _ _ H). reflexivity. Qed.
+
+Lemma var1A_perm : forall a b : list R, Permutation a b -> var1A (A:=RealA) a = var1A (A:=RealA) b.
+Proof.
+  intros a b H. unfold var1A. rewrite (meanA_perm _ _ H), (zlen_perm (X:=num RealA) _ _ H).
+  rewrite (sumA_perm _ _ (Permutation_map _ H)). reflexivity.
+Qed.
+
+Theorem welch_t_perm : forall X X' Y Y' : list R, Permutation X X' -> Permutation Y Y' ->
+  welch_t (A:=RealA) X Y = welch_t (A:=RealA) X' Y'.
+Proof.
+  intros X X' Y Y' HX HY. unfold welch_t.
+  rewrite (meanA_perm _ _ HX), (meanA_perm _ _ HY), (var1A_perm _ _ HX), (var1A_perm _ _ HY),
+          (lenA_perm _ _ HX), (lenA_perm _ _ HY). reflexivity.
+Qed.
+
+Theorem welch_t_swap : forall X Y : list R, welch_t (A:=RealA) X Y = - welch_t (A:=RealA) Y X.
+Proof.
+  intros X Y. unfold welch_t. cbn [add sub div sqrt RealA num].
+  rewrite (Rplus_comm (var1A Y / lenA Y)). unfold Rdiv. ring.
+Qed.
+
+(* ====================================================================== *)
+(** * chi-square *)
+Local Open Scope Z_scope.
+
+Lemma existsb_perm : forall {X} (f : X -> bool) a b, Permutation a b -> existsb f a = existsb f b.
+Proof.
+  induction 1; cbn; try congruence.
+  destruct (f x), (f y); reflexivity.
+Qed.
+
+Theorem chi2_stat_perm : forall (cellf : R -> R -> R) corr cols cols', Permutation cols cols' ->
+  chi2_stat (A:=RealA) cellf corr cols = chi2_stat (A:=RealA) cellf corr cols'.
+Proof.
+  intros cellf corr cols cols' H. unfold chi2_stat.
+  rewrite (zsum_map_perm fst _ _ H), (zsum_map_perm snd _ _ H), (zlen_perm _ _ H).
+  destruct cols as [|c cols]; destruct cols' as [|c' cols'].
+  - reflexivity.
+  - apply Permutation_nil in H; discriminate.
+  - apply Permutation_sym, Permutation_nil in H; discriminate.
+  - rewrite (existsb_perm _ _ _ H). rewrite (sumA_perm _ _ (Permutation_map _ H)). reflexivity.
+Qed.
+
+Definition swap2 (c : Z * Z) : Z * Z := (snd c, fst c).
+
+Lemma existsb_map_ext : forall {X Y} (f' : Y -> bool) (f : X -> bool) (g : X -> Y) l,
+  (forall x, f' (g x) = f x) -> existsb f' (map g l) = existsb f l.
+Proof. intros X Y f' f g l H. induction l as [|a l IH]; [reflexivity|]. cbn. rewrite H, IH. reflexivity. Qed.
+
+(** rows (test, reference) or (reference, test): same statistic *)
+Theorem chi2_row_swap : forall (cellf : R -> R -> R) corr cols,
+  chi2_stat (A:=RealA) cellf corr (map swap2 cols) = chi2_stat (A:=RealA) cellf corr cols.
+Proof.
+  intros cellf corr cols. unfold chi2_stat.
+  rewrite !map_map. cbn [swap2 fst snd]. rewrite zlen_map.
+  change (map (fun x => snd x) cols) with (map snd cols). change (map (fun x => fst x) cols) with (map fst cols).
+  rewrite (Z.add_comm (zsum (map snd cols)) (zsum (map fst cols))).
+  destruct cols as [|c0 cols0]; [reflexivity|].
+  change (map swap2 (c0 :: cols0)) with (swap2 c0 :: map swap2 cols0).
+  cbv iota. change (swap2 c0 :: map swap2 cols0) with (map swap2 (c0 :: cols0)).
+  generalize (c0 :: cols0) as cols. intros cols.
+  rewrite (existsb_map_ext _ (fun c : Z * Z =>
+     orb (@eqb RealA (@div RealA (@ofZ RealA (zsum (map fst cols) * (fst c + snd c))) (@ofZ RealA (zsum (map fst cols) + zsum (map snd cols)))) (@zero RealA))
+         (@eqb RealA (@div RealA (@ofZ RealA (zsum (map snd cols) * (fst c + snd c))) (@ofZ RealA (zsum (map fst cols) + zsum (map snd cols)))) (@zero RealA))) swap2).
+  2:{ intros c. cbn [swap2 fst snd]. rewrite (Z.add_comm (snd c) (fst c)). apply orb_comm. }
+  destruct (existsb _ cols); [reflexivity|].
+  destruct (zlen cols - 1 =? 0); [reflexivity|].
+  f_equal. f_equal. apply map_ext. intros c. cbn [swap2 fst snd].
+  rewrite (Z.add_comm (snd c) (fst c)). cbn [add RealA]. apply Rplus_comm.
+Qed.
+
+(** ---- the contingency table ---- *)
+Section TableR.
+  Context {C : Type} (ceq : C -> C -> bool).
+  Hypothesis ceq_spec : forall a b, ceq a b = true <-> a = b.
+
+  Lemma chi_table_map : forall pv Xref X,
+    chi_table ceq pv Xref X = map (fun v => (countc ceq v X, countc ceq v Xref)) pv.
+  Proof.
+    intros. unfold chi_table, frequencies. cbn [fst snd].
+    induction pv as [|v pv IH]; [reflexivity|]. cbn [map combine]. rewrite IH. reflexivity.
+  Qed.
+
+  Lemma countc_perm : forall c a b, Permutation a b -> countc ceq c a = countc ceq c b.
+  Proof. intros. unfold countc. apply zsum_map_perm; assumption. Qed.
+
+  (** zero-filling: a category absent from a sample gets count 0; present ones a positive count *)
+  Lemma countc_absent : forall c l, ~ In c l -> countc ceq c l = 0.
+  Proof.
+    intros c l. unfold countc. induction l as [|x l IH]; intros H; [reflexivity|].
+    cbn [map]. rewrite zsum_cons, IH by (intros G; apply H; right; exact G).
+    destruct (ceq x c) eqn:E; [|reflexivity]. apply ceq_spec in E. subst. exfalso; apply H; left; reflexivity.
+  Qed.
+  Lemma countc_nonneg : forall c l, 0 <= countc ceq c l.
+  Proof.
+    intros c l. unfold countc. induction l as [|x l IH]; [cbn; lia|]. cbn [map]. rewrite zsum_cons.
+    destruct (ceq x c); lia.
+  Qed.
+  Lemma countc_present : forall c l, In c l -> 0 < countc ceq c l.
+  Proof.
+    intros c l. unfold countc. induction l as [|x l IH]; intros H; [destruct H|].
+    cbn [map]. rewrite zsum_cons. pose proof (countc_nonneg c l) as Hn. unfold countc in Hn.
+    destruct H as [H|H].
+    - subst. replace (ceq c c) with true by (symmetry; apply ceq_spec; reflexivity). lia.
+    - specialize (IH H). destruct (ceq x c); lia.
+  Qed.
+
+  (** column sums are positive and the row sums are the sample sizes: the table SciPy receives is valid *)
+  Lemma table_rows : forall pv Xref X, set_contract pv Xref X ->
+    zsum (map fst (chi_table ceq pv Xref X)) = zlen X /\ zsum (map snd (chi_table ceq pv Xref X)) = zlen Xref.
+  Proof.
+    intros pv Xref X [Hnd Hin]. rewrite chi_table_map, !map_map. cbn [fst snd].
+    assert (G : forall L, (forall c, In c L -> In c pv) -> zsum (map (fun v => countc ceq v L) pv) = zlen L).
+    { clear Hin. intros L. revert pv Hnd. induction L as [|x L IH]; intros pv Hnd HL.
+      - unfold countc. cbn [map]. rewrite (zsum_map_ext _ (fun _ => 0)) by reflexivity. rewrite zsum_map_const. unfold zlen; cbn; lia.
+      - rewrite zlen_cons, <- (IH pv Hnd) by (intros c Hc; apply HL; right; exact Hc).
+        unfold countc. cbn [map].
+        rewrite (zsum_map_ext _ (fun v => (if ceq x v then 1 else 0) + zsum (map (fun x0 => if ceq x0 v then 1 else 0) L)))
+          by (intros; rewrite zsum_cons; reflexivity).
+        rewrite zsum_map_add. f_equal.
+        (* exactly one v in pv equals x *)
+        assert (Hx : In x pv) by (apply HL; left; reflexivity).
+        clear HL IH. induction pv as [|v pv IHp]; [destruct Hx|].
+        cbn [map]. rewrite zsum_cons. inversion Hnd as [|? ? Hni Hnd']; subst.
+        destruct Hx as [Hx|Hx].
+        + subst v. replace (ceq x x) with true by (symmetry; apply ceq_spec; reflexivity).
+          rewrite (zsum_map_ext _ (fun _ => 0)); [rewrite zsum_map_const; lia|].
+          intros v Hv. destruct (ceq x v) eqn:E; [|reflexivity]. apply ceq_spec in E. subst. contradiction.
+        + rewrite (IHp Hnd' Hx). destruct (ceq x v) eqn:E; [|lia]. apply ceq_spec in E. subst. contradiction. }
+    split; apply G; intros c Hc; apply Hin; [right|left]; exact Hc.
+  Qed.
+
+  Theorem chi2_table_perm : forall (pv pv' Xref X : list C), Permutation pv pv' ->
+    Permutation (chi_table ceq pv Xref X) (chi_table ceq pv' Xref X).
+  Proof. intros. rewrite !chi_table_map. apply Permutation_map; assumption. Qed.
+
+  Theorem chi2_table_sample_order : forall (pv Xref Xref' X X' : list C), Permutation Xref Xref' -> Permutation X X' ->
+    chi_table ceq pv Xref X = chi_table ceq pv Xref' X'.
+  Proof.
+    intros pv Xref Xref' X X' H1 H2. rewrite !chi_table_map. apply map_ext. intros v.
+    rewrite (countc_perm v _ _ H1), (countc_perm v _ _ H2). reflexivity.
+  Qed.
+
+  (** any two iteration orders Python's set may produce are permutations of one another *)
+  Lemma set_contract_perm : forall (pv pv' Xref X : list C), set_contract pv Xref X -> set_contract pv' Xref X -> Permutation pv pv'.
+  Proof.
+    intros pv pv' Xref X [N1 I1] [N2 I2]. apply NoDup_Permutation; try assumption.
+    intros c. rewrite I1, I2. reflexivity.
+  Qed.
+End TableR.
+
+Section Relabel.
+  Context {C C' : Type} (ceq : C -> C -> bool) (ceq' : C' -> C' -> bool).
+  Hypothesis ceq_spec : forall a b, ceq a b = true <-> a = b.
+  Hypothesis ceq'_spec : forall a b, ceq' a b = true <-> a = b.
+  Variable f : C -> C'.
+  Hypothesis f_inj : forall a b, f a = f b -> a = b.
+
+  Lemma countc_map : forall c l, countc ceq' (f c) (map f l) = countc ceq c l.
+  Proof.
+    intros c l. unfold countc. rewrite map_map. f_equal. apply map_ext. intros x.
+    destruct (ceq x c) eqn:E.
+    - apply ceq_spec in E. subst. replace (ceq' (f c) (f c)) with true by (symmetry; apply ceq'_spec; reflexivity). reflexivity.
+    - destruct (ceq' (f x) (f c)) eqn:E'; [|reflexivity]. apply ceq'_spec, f_inj in E'. subst.
+      assert (ceq c c = true) by (apply ceq_spec; reflexivity). congruence.
+  Qed.
+
+  Theorem chi2_table_relabel : forall pv pv' Xref X,
+    set_contract pv Xref X -> set_contract pv' (map f Xref) (map f X) ->
+    Permutation (chi_table ceq' pv' (map f Xref) (map f X)) (chi_table ceq pv Xref X).
+  Proof.
+    intros pv pv' Xref X [N1 I1] [N2 I2].
+    assert (Hp : Permutation pv' (map f pv)).
+    { apply NoDup_Permutation; [exact N2 | apply FinFun.Injective_map_NoDup; [exact f_inj | exact N1] |].
+      intros c'. rewrite I2, !in_map_iff. split.
+      - intros [[c [E H]]|[c [E H]]]; exists c; (split; [exact E|]); apply I1; [left|right]; exact H.
+      - intros [c [E H]]. apply I1 in H. destruct H as [H|H]; [left|right]; exists c; split; assumption. }
+    rewrite (chi_table_map ceq'), (chi_table_map ceq).
+    eapply perm_trans; [apply Permutation_map; exact Hp|].
+    rewrite map_map. erewrite map_ext; [apply Permutation_refl|].
+    intros v. cbn. rewrite !countc_map. reflexivity.
+  Qed.
+End Relabel.
+
+(** ---- consequences for the statistic (over R, any power-divergence term) ---- *)
+Theorem chi2_order_irrelevant : forall {C} (ceq : C -> C -> bool) (cellf : R -> R -> R) corr pv pv' Xref X,
+  set_contract pv Xref X -> set_contract pv' Xref X ->
+  chi2_stat (A:=RealA) cellf corr (chi_table ceq pv Xref X) = chi2_stat (A:=RealA) cellf corr (chi_table ceq pv' Xref X).
+Proof.
+  intros. apply chi2_stat_perm. rewrite !chi_table_map. apply Permutation_map.
+  eapply set_contract_perm; eassumption.
+Qed.
+
+Theorem chi2_relabel_invariant : forall {C C'} (ceq : C -> C -> bool) (ceq' : C' -> C' -> bool)
+  (ceq_spec : forall a b, ceq a b = true <-> a = b) (ceq'_spec : forall a b, ceq' a b = true <-> a = b)
+  (f : C -> C') (f_inj : forall a b, f a = f b -> a = b) (cellf : R -> R -> R) corr pv pv' Xref X,
+  set_contract pv Xref X -> set_contract pv' (map f Xref) (map f X) ->
+  chi2_stat (A:=RealA) cellf corr (chi_table ceq' pv' (map f Xref) (map f X)) =
+  chi2_stat (A:=RealA) cellf corr (chi_table ceq pv Xref X).
+Proof. intros. apply chi2_stat_perm. eapply chi2_table_relabel; eassumption. Qed.
+
+(* ====================================================================== *)
+(** * Part 3 — Kuiper: witnesses on the binary64 run of the transliterated code *)
+From Coq Require Import PrimFloat.
+From FV Require Import FloatA.
+Local Open Scope float_scope.
+
+(** F20: the p-value is NaN (negative base to a fractional power) ... *)
+Theorem kuiper_p_nan : 
+  let X := [1; 2; 3] in let Y := [0x1.8p+0; 0x1.4p+1; 0x1.cp+1] in   (* 1.5 2.5 3.5 *)
+  PrimFloat.is_nan (kuiper_p (A:=FloatA) X Y) = true /\ p_valid (A:=FloatA) (kuiper_p (A:=FloatA) X Y) = false.
+Proof. vm_compute. split; reflexivity. Qed.
+
+(** ... or larger than 1 (integral N: (D - 1/N)^(N-1) is negative) *)
+Theorem kuiper_p_above_one :
+  let X := [1; 3; 5; 7] in let Y := [2; 4; 6; 8] in
+  PrimFloat.ltb 1 (kuiper_p (A:=FloatA) X Y) = true /\ p_valid (A:=FloatA) (kuiper_p (A:=FloatA) X Y) = false.
+Proof. vm_compute. split; reflexivity. Qed.
+
+Theorem kuiper_pvalue_refuted : exists X Y : list float,
+  (2 <= zlen X)%Z /\ (2 <= zlen Y)%Z /\ p_valid (A:=FloatA) (kuiper_p (A:=FloatA) X Y) = false.
+Proof.
+  exists [1; 2; 3], [0x1.8p+0; 0x1.4p+1; 0x1.cp+1]. split; [vm_compute; discriminate|]. split; [vm_compute; discriminate|].
+  exact (proj2 kuiper_p_nan).
+Qed.
+
+(** O2: the reported statistic is the KS distance D, which differs from Kuiper's V = D+ + D- *)
+Theorem kuiper_stat_is_not_V : exists X Y : list float,
+  ks_H (A:=FloatA) X Y = ks_DH PrimFloat.ltb X Y /\ ks_H (A:=FloatA) X Y <> kuiper_VH PrimFloat.ltb X Y.
+Proof. exists [1; 4], [2; 3]. vm_compute. split; [reflexivity|discriminate]. Qed.
